@@ -110,7 +110,7 @@ func machineJob(l *Loaded, cfg Config, sk Skeleton, budgetK int) *Job {
 		Params: map[string]string{"variant": cfg.Variant, "eu": strconv.Itoa(cfg.EU), "wu": strconv.Itoa(cfg.WU), "width": strconv.Itoa(cfg.Width()),
 			"mem": strconv.Itoa(sk.Mem), "prog": prog, "init": sk.Init, "budgetk": strconv.Itoa(budgetK), "maxsteps": strconv.Itoa(sk.MaxSteps),
 			"skipregs": sk.SkipRegs, "symmem": sk.SymMem},
-		Covers: []string{"ref-done", "run-returned"}, MaxPaths: 24, MaxConc: 3, MaxSteps: 80_000_000, Note: sk.Note}
+		Covers: []string{"ref-done", "run-returned"}, MaxPaths: 24, MaxConc: 3, MaxQueries: 3000, MaxSteps: 80_000_000, Note: sk.Note}
 }
 
 const budgetK = 8
